@@ -264,6 +264,143 @@ def aniso_job(nr_exp, aniso):
     return j
 
 
+# ---- PolarGrid::checkParameters: std algorithms + lambdas -> loops (statement expressions), lambda bodies verbatim -------------
+CP_PRELUDE = r"""
+#define CAP @CAP@
+static real_t radii[CAP], angles[CAP]; static int radii_size, angles_size; static _Bool g_thrown;
+#define VCHK(a, i) (__CPROVER_assert((i) >= 0 && (i) < a##_size, "vector subscript within size: " #a), (i))
+static real_t M_PI_;
+#define M_PI M_PI_
+#define V_EPSILON (RQ(1,67108864) * RQ(1,67108864))      /* std::numeric_limits<double>::epsilon() = 2^-52 */
+static real_t v_abs(real_t a) { return a < 0 ? -a : a; }
+static real_t v_max(real_t a, real_t b) { return a < b ? b : a; }
+/* model of the std algorithms used (trusted): iterators are indices into the named vector */
+#define ADJ_FIND_GE(a, i1, i2) ({ int r_ = (i2); for (int q_ = (i1); q_ + 1 < (i2); q_++) if (a[VCHK(a, q_)] >= a[VCHK(a, q_ + 1)]) { r_ = q_; break; } r_; })
+#define LOWER_BOUND(a, i1, i2, val) ({ int r_ = (i2); for (int q_ = (i1); q_ < (i2); q_++) if (!(a[VCHK(a, q_)] < (val))) { r_ = q_; break; } r_; })
+"""
+
+
+def translate_std_algorithms(b, rules, fname):
+    """std::all_of / any_of / none_of / find_if with a lambda, std::adjacent_find(.., std::greater_equal<double>()), std::lower_bound,
+    front/back/size on the two parameter vectors -> loops over indices (GNU statement expressions); the lambda BODIES stay verbatim
+    (their final `return E;` becomes the value E).  Innermost calls first."""
+    from vlib import match_close, split_top
+    itmap = {}
+
+    def lb(m):
+        itmap[m.group(1)] = m.group(2)
+        return "const int %s = LOWER_BOUND(%s, 0, %s_size, %s);" % (m.group(1), m.group(2), m.group(2), m.group(3))
+    b = re.sub(r"const\s+auto\s+(\w+)\s*=\s*std::lower_bound\((\w+)\.begin\(\),\s*\2\.end\(\),\s*([^;]+)\);", lb, b)
+    rules.log.append(("CP.lower_bound(%s)" % fname, len(itmap)))
+
+    def it(expr):
+        e = expr.strip()
+        m = re.fullmatch(r"(\w+)\.begin\(\)", e)
+        if m:
+            return m.group(1), "0"
+        m = re.fullmatch(r"(\w+)\.end\(\)", e)
+        if m:
+            return m.group(1), m.group(1) + "_size"
+        if e in itmap:
+            return itmap[e], e
+        raise ExtractError("%s: iterator expression `%s` not understood" % (fname, e))
+    k = 0
+    while True:
+        ms = list(re.finditer(r"std::(all_of|any_of|none_of|find_if)\s*\(", b))
+        if not ms:
+            break
+        m = ms[-1]
+        po = m.end() - 1
+        pc = match_close(b, po, "(", ")")
+        args = split_top(b[po + 1:pc], ",")
+        if len(args) != 3:
+            raise ExtractError("%s: std::%s with %d arguments" % (fname, m.group(1), len(args)))
+        (a1, i1), (a2, i2) = it(args[0]), it(args[1])
+        if a1 != a2:
+            raise ExtractError("%s: iterator range over two vectors" % fname)
+        lam = re.fullmatch(r"\s*\[[^\]]*\]\s*\(\s*double\s+(\w+)\s*\)\s*\{(.*)\}\s*", args[2], re.S)
+        if not lam:
+            raise ExtractError("%s: third argument of std::%s is not a lambda over double" % (fname, m.group(1)))
+        var, body = lam.group(1), lam.group(2).strip()
+        rm = list(re.finditer(r"\breturn\b", body))
+        if len(rm) != 1 or not body.endswith(";"):
+            raise ExtractError("%s: lambda with other than one final return" % fname)
+        body = body[:rm[0].start()] + body[rm[0].end():]
+        k += 1
+        kind = m.group(1)
+        loop = "for (int i%d_ = (%s); i%d_ < (%s); i%d_++) { const real_t %s = %s[VCHK(%s, i%d_)]; const _Bool v%d_ = ({ %s }); " % (k, i1, k, i2, k, var, a1, a1, k, k, body)
+        if kind == "find_if":
+            rep = "({ int r%d_ = (%s); %s if (v%d_) { r%d_ = i%d_; break; } } r%d_; })" % (k, i2, loop, k, k, k, k)
+        elif kind == "all_of":
+            rep = "({ _Bool r%d_ = 1; %s if (!v%d_) { r%d_ = 0; break; } } r%d_; })" % (k, loop, k, k, k)
+        elif kind == "any_of":
+            rep = "({ _Bool r%d_ = 0; %s if (v%d_) { r%d_ = 1; break; } } r%d_; })" % (k, loop, k, k, k)
+        else:
+            rep = "({ _Bool r%d_ = 1; %s if (v%d_) { r%d_ = 0; break; } } r%d_; })" % (k, loop, k, k, k)
+        b = b[:m.start()] + rep + b[pc + 1:]
+    rules.log.append(("CP.lambda_algorithms(%s)" % fname, k))
+
+    def adj(m):
+        (a1, i1), (a2, i2) = it(m.group(1)), it(m.group(2))
+        return "ADJ_FIND_GE(%s, %s, %s)" % (a1, i1, i2)
+    b = rules.sub("CP.adjacent_find", r"std::adjacent_find\(([^,()]+\(\)|\w+),\s*([^,()]+\(\)|\w+),\s*std::greater_equal<double>\(\)\)", adj, b)
+    b = re.sub(r"\b(radii|angles)\.end\(\)", r"\1_size", b)
+    b = re.sub(r"\b(radii|angles)\.begin\(\)", "0", b)
+    b = rules.sub("CP.front", r"\b(radii|angles)\.front\(\)", r"\1[VCHK(\1, 0)]", b)
+    b = rules.sub("CP.back", r"\b(radii|angles)\.back\(\)", r"\1[VCHK(\1, \1_size - 1)]", b)
+    return b
+
+
+def check_params_job(nrad, nang):
+    rules, hashes = Rules("gridgen"), {}
+    f = Src.get(REF).function("PolarGrid::checkParameters", must_params=["radii", "angles"])
+    hashes["PolarGrid::checkParameters"] = sha(f["body"])
+    b = translate_std_algorithms(f["body"], rules, "checkParameters")
+    b = rules.sub("R8.throw", r"throw\s+std::(\w+)\(((?:[^;\"]|\"[^\"]*\")*)\);", "{ g_thrown = 1; return; }", b, expect="+")
+    b = common_body_rewrites(b, rules, "R")
+    if re.search(r"std::|\bauto\b|\.begin\(|\.end\(", b):
+        raise ExtractError("checkParameters: unhandled construct `%s`" % re.search(r"std::\w+|\bauto\b|\.begin\(|\.end\(", b).group(0))
+    fe = Src.get("include/common/equals.h").function("equals", must_params=["lhs", "rhs"])
+    hashes["equals"] = sha(fe["body"])
+    eb = rules.sub("CP.epsilon", r"std::numeric_limits<T>::epsilon\(\)", "V_EPSILON", fe["body"], expect=1)
+    eb = common_body_rewrites(eb, rules, "R")
+    if re.search(r"std::", eb):
+        raise ExtractError("equals: unhandled construct")
+    cap = max(nrad, nang) + 1
+    c = [units.PRELUDE_R, CP_PRELUDE.replace("@CAP@", str(cap)), "static _Bool equals(const real_t lhs, const real_t rhs)\n{%s}\n" % eb,
+         "static void checkParameters(void)   /* R3: the two vector parameters are the file-scope radii / angles */\n{%s}\n" % b]
+    h = ["void harness(void) {", "  M_PI_ = nondet_real(); __CPROVER_assume(M_PI_ > 3 && M_PI_ < 4);", "  radii_size = %d; angles_size = %d;" % (nrad, nang)]
+    h += ["  radii[%d] = nondet_real();" % i for i in range(nrad)] + ["  angles[%d] = nondet_real();" % j for j in range(nang)]
+    h.append("  g_thrown = 0; checkParameters();")
+    conj = []
+    if nrad < 2:
+        conj.append("0")
+    conj += ["radii[%d] > 0" % i for i in range(nrad)] + ["radii[%d] < radii[%d]" % (i, i + 1) for i in range(nrad - 1)]
+    if nang < 3:
+        conj.append("0")
+    conj += ["angles[%d] >= 0" % j for j in range(nang)] + ["angles[%d] < angles[%d]" % (j, j + 1) for j in range(nang - 1)]
+    if nang >= 1:
+        conj += ["equals(angles[0], 0)", "equals(angles[%d], 2 * M_PI_)" % (nang - 1)]
+    h.append("  _Bool ok = %s;" % " && ".join(conj or ["1"]))
+    h.append("  /* every angle has its antipode: theta + pi, reduced by 2 pi when it leaves [0, 2 pi) */")
+    for j in range(nang):
+        h.append("  { const real_t opp = angles[%d] + M_PI_ >= 2 * M_PI_ ? angles[%d] - M_PI_ : angles[%d] + M_PI_; ok = ok && (%s); }" % (
+            j, j, j, " || ".join("equals(opp, angles[%d])" % q for q in range(nang))))
+    h.append("  __CPROVER_assert(g_thrown == !ok, \"OBL:checkParameters_rejects_exactly_the_invalid_coordinate_arrays(monotone positive radii, angles 0..2pi increasing, antipode for every angle)\");")
+    h.append("  __CPROVER_assert(M_PI_ != M_PI_, \"COVER:reached_end\");")
+    h.append("}")
+    j = Job("gridgen.checkParameters[radii=%d,angles=%d]" % (nrad, nang), "\n".join(c + h), "R", unwind=cap + 2, timeout=900,
+            bounded="array sizes fixed (%d radii, %d angles); all coordinates symbolic reals" % (nrad, nang),
+            functions=["PolarGrid::checkParameters", "equals"], covers={"COVER:reached_end"}, split=r"^OBL:|^COVER:", split_chunk=1, split_timeout=600,
+            extra=["--max-field-sensitivity-array-size", "4096"])
+    j.rules, j.hashes = rules, hashes
+    return j
+
+
+def check_params_configs(tier):
+    return [(1, 3), (2, 2), (2, 3), (3, 5), (2, 6), (2, 7)] if tier == "quick" else [(1, 3), (2, 2), (2, 3), (3, 5), (2, 4), (2, 6), (2, 7), (3, 8), (2, 9)]
+
+
 def configs(tier):
     q = [(a, b, d) for a in (1, 2, 3, 4) for b in (-1, 2, 3, 4) for d in (0, 1, 2) if (a - 1) + d <= 4 and (b if b >= 0 else a + 1) + d <= 6]
     if tier != "quick":
@@ -305,6 +442,9 @@ def replay_cb(job, key, label, rec):
     import vlib
     if "anisotropic_window" in job.name:
         return aniso_replay_cb(job, key, label, rec)
+    mc = re.search(r"checkParameters\[radii=(\d+),angles=(\d+)\]", job.name)
+    if mc:
+        return vlib.native_driver("replay_checkparams", [int(mc.group(1)), int(mc.group(2))])
     m = re.search(r"nr_exp=(-?\d+),ntheta_exp=(-?\d+),divideBy2=(\d+)", job.name)
     if not m:
         return None
@@ -316,4 +456,5 @@ def aniso_configs(tier):
 
 
 def build_jobs(tier, seed, anisotropic=False):
-    return [job_for(*cfg) for cfg in configs(tier)] + ([aniso_job(*cfg) for cfg in aniso_configs(tier)] if anisotropic else [])
+    return [job_for(*cfg) for cfg in configs(tier)] + ([aniso_job(*cfg) for cfg in aniso_configs(tier)] +
+                                                        [check_params_job(*cfg) for cfg in check_params_configs(tier)] if anisotropic else [])
